@@ -63,7 +63,16 @@ NodeCfgs ==
              << [op |-> "AddNode", name |-> "n1", site |-> "S1", ntype |-> nt, rp |-> <<>>],
                 [op |-> "SetProp", p |-> "n1", kind |-> "sp", pname |-> "Site", val |-> s] >> } : s \in {"", "S1"}, nt \in NodeTypesC}
 
-Init == \/ \E b \in NodeCfgs : path = b /\ st = RunAll(Empty, b, 1) /\ lastop = [op |-> "Init"] /\ chg = FALSE
+\* histories: a valid (or invalid) slice reached by REMOVING a node that had one free and one connected port - the
+\* verdict must be that of the slice that remains
+Extra == << [op |-> "AddNode", name |-> "nx", site |-> "S1", ntype |-> "VM", rp |-> <<>>],
+            [op |-> "AddComponent", n |-> "nx", name |-> "c1", model |-> "nic2"] >>
+AfterRemoval ==
+    {Build(t, k, [i \in 1..k |-> 1], [i \in 1..k |-> "D"], "none", <<>>, "ctor") \o Extra
+        \o << [op |-> "Connect", s |-> "svc:s1", i |-> "nx/c1/nx-c1-l2ovs/c1-" \o port], [op |-> "RemoveNode", name |-> "nx"] >> :
+        t \in (IF SvcSubset = {} THEN {"L2Bridge", "L2STS", "L2PTP", "FABNetv4"} ELSE SvcSubset \cap {"L2Bridge", "L2STS", "L2PTP", "FABNetv4"}),
+        k \in 1..2, port \in {"p1", "p2"}}
+Init == \/ \E b \in NodeCfgs \cup AfterRemoval : path = b /\ st = RunAll(Empty, b, 1) /\ lastop = [op |-> "Init"] /\ chg = FALSE
         \/ \E t \in (IF SvcSubset = {} THEN ServiceTypes ELSE SvcSubset), k \in 0..MaxIfs, decl \in {"none", "same", "other"},
            ps \in PropSets, via \in {"ctor", "connect"} :
           \E sites \in RG(k), kinds \in KindSeqs(k) :
